@@ -10,6 +10,7 @@ import (
 	"encoding/binary"
 	"io"
 	"math"
+	"os"
 )
 
 // handleRead handles NFSPROC3_READ - read from file
@@ -161,6 +162,12 @@ func (h *NFSProcedureHandler) handleWrite(body io.Reader, reply *RPCReply, authC
 	preAttrs, err := h.server.handler.GetAttr(node)
 	if err != nil {
 		return nfsErrorWithWcc(reply, mapError(err)), nil
+	}
+
+	// Only the link itself is named by a symbolic link's handle; opening its path would write
+	// to the target behind the attribute cache (RFC 1813: NFS3ERR_INVAL for a non-regular file)
+	if preAttrs.Mode&os.ModeSymlink != 0 {
+		return nfsErrorWithWcc(reply, NFSERR_INVAL), nil
 	}
 
 	n, err := h.server.handler.Write(node, int64(offset), data)
